@@ -1,7 +1,8 @@
 (* Rt/ExtFormat.v — format facts about the building blocks of the extensibility
    layer (Rt/Ext.v), stated against the text of the standards:
      (A) X.696 16.4: the OER presence bitmap of the extension additions is a BIT STRING
-         (length octet, unused-bits octet, the bits padded with zeros);
+         (length octet, unused-bits octet, the bits padded with zeros); X.696 16.2-16.3: the
+         preamble starts with the extension bit, however many octets it has;
      (B) X.691 11.9.3.4 / 11.6: normally small length and normally small non-negative
          whole number: the bits written, clause by clause, and the C's readers read
          them back (since the repair of uper_put_nslength / uper_put_nsnnwn: also above
@@ -48,6 +49,31 @@ Proof.
   destruct (bits_to_bytes_spec pres) as [H1 H2].
   split; [reflexivity|]. split; [exact H2|].
   rewrite H1. unfold zlen. rewrite unused_bits_pad_len, Nat2Z.id. reflexivity.
+Qed.
+
+(* X.696 16.2-16.3: the preamble of an extensible SEQUENCE is the extension bit FOLLOWED by one presence bit per
+   OPTIONAL/DEFAULT root component, padded with zero bits to a whole number of octets: whatever the number of such
+   components (1, 2, 3, ... octets), the extension bit is the first bit of the first octet of the encoding *)
+Theorem ext_oer_preamble_format tg root adds rvs avs bs :
+  ext_oer (ESeq tg root adds) (EVSeq rvs avs) = Some bs ->
+  exists tail,
+    bytes_bits bs = (existsb is_present avs :: presence_bits root rvs)
+                    ++ repeat false (pad_len (S (length (presence_bits root rvs)))) ++ bytes_bits tail.
+Proof.
+  cbn [ext_oer].
+  destruct (enc_members oer root rvs) as [body|]; [|discriminate].
+  destruct (enc_additions oer oer_open adds avs) as [ots|]; [|discriminate].
+  cbv zeta.
+  assert (Hpre : forall any tail,
+    bytes_bits (bits_to_bytes (any :: presence_bits root rvs) ++ tail) =
+    (any :: presence_bits root rvs) ++ repeat false (pad_len (S (length (presence_bits root rvs)))) ++ bytes_bits tail).
+  { intros any tail. unfold bytes_bits. rewrite flat_map_app. fold (bytes_bits (bits_to_bytes (any :: presence_bits root rvs))).
+    destruct (bits_to_bytes_spec (any :: presence_bits root rvs)) as [Hb _]. rewrite Hb.
+    cbn [length]. rewrite <- app_assoc. reflexivity. }
+  destruct (existsb is_present avs) eqn:Eany.
+  - destruct (oer_ext_bitmap (map is_present avs)) as [bm|]; [|discriminate].
+    intros H. apply some_inj in H. subst bs. exists (body ++ bm ++ ots). apply Hpre.
+  - intros H. apply some_inj in H. subst bs. exists body. apply Hpre.
 Qed.
 
 (* ================= (B) normally small length / number ================= *)
